@@ -66,6 +66,9 @@ class OpGen:
         self.used_aliases: set = set()
         self.used_vars: set = set()
         self.current_kind = "query"
+        self.frag_vars: Dict[str, List[Tuple[str, str, Optional[str]]]] = {}  # fragment name -> variables its body uses (the spreading operation declares them)
+        self.frag_var_names: set = set()
+        self.custom_dir = schema.get_directive("vfTag") is not None  # see gen/schema.py CUSTOM_DIRECTIVE_SDL
 
     # ------------------------------------------------------------------ helpers
     def uid(self) -> int:
@@ -101,6 +104,10 @@ class OpGen:
         return "AliasURL%d" % n
 
     def var_name(self) -> str:
+        if self.in_fragment:
+            # a fragment's variables meet those of every operation that spreads it: plain numbered names only, so that no pair colliding after the
+            # name mapping (Variables / variables: the listed collision class, C18's matter) is manufactured by the generator itself
+            return ["v%d", "varName%d", "var_name_%d", "VarID%d"][self.rng.randrange(4)] % self.uid()
         d = self.dirty_name(self.used_vars)
         if d:
             return d
@@ -182,7 +189,7 @@ class OpGen:
             required = is_required_argument(a)
             if not required and self.rng.random() < 0.5:
                 continue
-            if not self.in_fragment and self.rng.random() < 0.7:
+            if (not self.in_fragment or "frag.uses_variables" in self.dirty) and self.rng.random() < 0.7:
                 vname = self.var_name()
                 vtype = self.print_type(a.type)
                 default = None
@@ -211,13 +218,32 @@ class OpGen:
         if not self.use_directives or (not force and self.rng.random() > 0.12):
             return ""
         d = self.rng.choice(["skip", "include"])
-        if self.in_fragment or self.rng.random() < 0.4:
+        if (self.in_fragment and "frag.uses_variables" not in self.dirty) or self.rng.random() < 0.4:
             self.feats.add("directive.%s.literal" % d)
             return " @%s(if: %s)" % (d, self.rng.choice(["true", "false"]))
         vname = self.var_name()
         self.vars.append((vname, "Boolean!", None))
         self.feats.add("directive.%s.variable" % d)
         return " @%s(if: $%s)" % (d, vname)
+
+    def tag(self, p: float = 0.2, const: bool = False) -> str:
+        """The schema's own executable directive (switch dir.custom), at whatever location the caller is writing."""
+        if not self.custom_dir or self.rng.random() > p:
+            return ""
+        self.feats.add("dir.custom.used")
+        r = self.rng.random()
+        if r < 0.3:
+            return " @vfTag"
+        if r < 0.6:
+            return " @vfTag(label: %s)" % self.rng.choice(['"a b"', '"x"', "null"])
+        if r < 0.8:
+            return ' @vfTag(n: %d) @vfTag(label: "second")' % self.rng.randrange(0, 9)
+        if const or (self.in_fragment and "frag.uses_variables" not in self.dirty):
+            return " @vfTag(n: 3)"
+        vname = self.var_name()
+        self.vars.append((vname, self.rng.choice(["String", "String!"]), None))
+        self.feats.add("dir.custom.variable_argument")
+        return " @vfTag(label: $%s)" % vname
 
     def mixin(self) -> str:
         if not self.mixins or self.rng.random() > 0.2:
@@ -236,12 +262,43 @@ class OpGen:
         if args or force_alias or is_composite_type(named) or self.rng.random() < 0.15:
             alias = self.alias() + ": "
             self.feats.add("sel.alias")
-        s = "%s%s%s%s" % (alias, fname, args, "" if no_directive else self.directive())
+        dirs = "" if no_directive else self.directive()
+        s = "%s%s%s%s%s" % (alias, fname, args, dirs, self.tag() if self.custom_dir else "")
         if is_composite_type(named):
             s += self.mixin()
             s += " " + self.selection_set(named, depth - 1)
             self.feats.add("pos." + ("union" if isinstance(named, GraphQLUnionType) else "interface" if isinstance(named, GraphQLInterfaceType) else "object"))
+            if "sel.field_merge" in self.dirty and alias and not args and not dirs and self.current_kind != "subscription" and self.rng.random() < 0.35:
+                s += " " + self.merged_twin(parent, alias, fname, named, depth)
+        elif "sel.field_merge" in self.dirty and not args and not alias and self.rng.random() < 0.1:
+            s += " " + fname  # the same leaf twice
+            self.feats.add("sel.field_merge.leaf")
         return s
+
+    def merged_twin(self, parent, alias: str, fname: str, named, depth: int) -> str:
+        """A second selection of the same field under the same response key with other sub-selections: the server merges them into one object
+        (the validator's FieldsInSetCanMerge rule decides what may meet; aliases here are unique and un-aliased leaves are the same field)."""
+        r = self.rng.random()
+        if r < 0.4:
+            self.feats.add("sel.field_merge.inline")
+            return "%s%s %s" % (alias, fname, self.selection_set(named, max(0, depth - 2)))
+        saved_in, saved_vars = self.in_fragment, self.vars
+        self.in_fragment, self.vars = True, []
+        try:
+            body = "%s%s %s" % (alias, fname, self.selection_set(named, 0))
+            fvars = self.vars
+        finally:
+            self.in_fragment, self.vars = saved_in, saved_vars
+        if r < 0.6:
+            self.vars.extend(v for v in fvars if not saved_in)
+            self.feats.add("sel.field_merge.inline_fragment")
+            return "... on %s { %s }" % (parent.name, body)
+        name = "FragMerge%d" % self.uid()
+        self.frags[name] = (parent.name, "fragment %s on %s { %s }" % (name, parent.name, body))
+        self.frag_has_inline[name] = "... on" in body or "... {" in body
+        self.frag_vars[name] = fvars
+        self.feats.add("sel.field_merge.named_fragment")
+        return "...%s" % name
 
     def leaf_fields(self, t) -> List[str]:
         return [n for n, f in t.fields.items() if is_leaf_type(get_named_type(f.type))]
@@ -302,7 +359,7 @@ class OpGen:
                     inner = "__typename"
                 else:
                     inner = " ".join(self.field(ot, f, depth) for f in fs)
-                sels.append("... on %s%s { %s }" % (ot.name, self.fragment_directive(), inner))
+                sels.append("... on %s%s%s { %s }" % (ot.name, self.fragment_directive(), self.tag() if self.custom_dir else "", inner))
                 self.feats.add("frag.inline.on_object")
             if other_iface is not None:
                 it = other_iface
@@ -336,7 +393,7 @@ class OpGen:
             many = "frag.many" in self.dirty or "shape.iface_hierarchy" in self.dirty or self.deep
             if app and rng.random() < (0.85 if many else 0.5):
                 for name in rng.sample(app, rng.randrange(1, min(4 if many else 2, len(app)) + 1)):
-                    sels.append("...%s%s" % (name, self.fragment_directive()))
+                    sels.append("...%s%s%s" % (name, self.fragment_directive(), self.tag() if self.custom_dir else ""))
                     cond = self.frags[name][0]
                     if cond == t.name:
                         self.feats.add("frag.named.same_type" + ("_with_inline" if self.frag_has_inline.get(name) else ""))
@@ -383,13 +440,16 @@ class OpGen:
             self.vars = []
             try:
                 text = self.selection_set(t, self.rng.randrange(1, 3) if deep else self.rng.randrange(0, 2))
+                mix = self.tag(0.3) if self.custom_dir else ""
+                self.frag_vars[name] = self.vars
             finally:
                 self.in_fragment = False
                 self.vars = saved_vars
-            mix = ""
+            if self.frag_vars.get(name):
+                self.feats.add("frag.uses_variables")
             if self.mixins and "mixin.on_fragment_def" in self.dirty and self.rng.random() < 0.3:
                 mod, cls = self.mixins[0]
-                mix = ' @mixin(from: "%s", import: "%s")' % (mod, cls)
+                mix += ' @mixin(from: "%s", import: "%s")' % (mod, cls)
                 self.feats.add("mixin.on_fragment_def")
             self.frags[name] = (t.name, "fragment %s on %s%s %s" % (name, t.name, mix, text))
             self.frag_has_inline[name] = "... on" in text or "... {" in text
@@ -433,11 +493,28 @@ class OpGen:
         if kind != "subscription" and self.rng.random() < 0.05:
             sels.append("__typename")
             self.feats.add("typename.root")
+        if self.frag_vars:
+            # variables used inside fragments are declared by every operation that (transitively) spreads them
+            import re as _re
+            seen, todo = set(), _re.findall(r"\.\.\.\s*([A-Za-z_]\w*)", " ".join(sels))
+            while todo:
+                fname_ = todo.pop()
+                if fname_ in seen or fname_ == "on" or fname_ not in self.frags:
+                    continue
+                seen.add(fname_)
+                todo.extend(_re.findall(r"\.\.\.\s*([A-Za-z_]\w*)", self.frags[fname_][1]))
+                for v in self.frag_vars.get(fname_, []):
+                    if v[0] not in [x[0] for x in self.vars]:
+                        self.vars.append(v)
         vars_s = ""
         if self.vars:
-            vars_s = "(" + ", ".join("$%s: %s%s" % (n, t, " = " + d if d is not None else "") for n, t, d in self.vars) + ")"
+            vars_s = "(" + ", ".join("$%s: %s%s%s" % (n, t, " = " + d if d is not None else "", self.tag(0.15, const=True) if self.custom_dir else "") for n, t, d in self.vars) + ")"
         self.feats.add("op." + kind)
-        return "%s %s%s { %s }" % (kind, name, vars_s, " ".join(sels))
+        optag = ""
+        if self.custom_dir and self.rng.random() < 0.3:
+            optag = self.rng.choice([" @vfTag", ' @vfTag(label: "op")', " @vfTag(n: 2) @vfTag"])
+            self.feats.add("dir.custom.on_operation")
+        return "%s %s%s%s { %s }" % (kind, name, vars_s, optag, " ".join(sels))
 
 
 OP_NAMES = ["GetThing", "listItems", "fetch_all", "DoURLStuff", "op", "Run2Things", "XMLQuery", "getA"]
